@@ -501,6 +501,14 @@ def run(tier, seed):
             def build(model):
                 x, y = V[field], fresh(V[field], field)
                 common = common_fields(model, V, field)
+                mm_ = re.match(r"^(c\.signature\.MultiSignature\.0)\.(\w+)\.", field)
+                if mm_ and not field.endswith(".discr"):
+                    # a beacon field of one signed entity variant: replayed as two complete signed entity types
+                    epre_, vn_ = mm_.group(1), mm_.group(2)
+                    dv_ = ctx.I.variant_index("SignedEntityType", vn_)
+                    V2_ = dict(V)
+                    V2_[field] = y
+                    return {"field": "signature.entity", "a": entity_spec(ctx, model, V, epre_, dv_), "b": entity_spec(ctx, model, V2_, epre_, dv_), "common": common}
                 if kind == "str":
                     return {"field": field[2:], "a": zstr_value(model, x).encode().hex(), "b": zstr_value(model, y).encode().hex(), "common": common}
                 return {"field": field[2:], "a": str(model.eval(x, model_completion=True)), "b": str(model.eval(y, model_completion=True)), "common": common}
